@@ -1,5 +1,6 @@
-/- The grant invariant holds in every reachable state; refresh-token deadness is stable. -/
-import Fosite.Proofs.SafeHandlers
+/- The grant invariant holds in every reachable state (every operation, including the device and
+   pushed-authorization flows, preserves it); refresh-token deadness is stable. -/
+import Fosite.Proofs.SafeDevicePar
 import Fosite.Proofs.History
 namespace Fosite.Model
 
@@ -7,19 +8,16 @@ theorem init_GInv : GInv ({} : MState).ss := by
   constructor <;> intros <;> simp_all [alookup]
 
 theorem GInv_clients (ss : SState) (cl : List Client) (h : GInv ss) : GInv { ss with clients := cl } :=
-  ⟨h.codesBelow, h.refreshBelow, h.idx, h.codeRT, h.codeIds⟩
+  ⟨h.codesBelow, h.refreshBelow, h.idx, h.codeRT, h.codeIds, h.devBelow, h.parBelow, h.devFresh, h.parFresh,
+    h.devIds, h.parIds, h.devPar⟩
 
-theorem GInv_device_oidc (ss : SState) (dev : List (Nat × DevRec)) (oidc : List (Nat × Req)) (h : GInv ss) :
-    GInv { ss with store := { ss.store with device := dev, oidc := oidc } } :=
-  ⟨h.codesBelow, h.refreshBelow, h.idx, h.codeRT, h.codeIds⟩
-
-/-- The operations for which the grant invariant is proved to be preserved.  `devicePoll` and
-    `authorizePar` create tokens / codes under a request id taken from a device or PAR record; the
-    invariant does not yet track those tables, so histories containing them are outside the proved
-    fragment (they are covered by the correspondence and the monitors). -/
-def Op.tracked : Op → Bool
-  | .devicePoll _ | .authorizePar _ => false
-  | _ => true
+/-- editing the stored request of a device authorization (same request id, same `used` flag) and
+    the OIDC session table keeps the invariant — this is all the consent application does -/
+theorem GInv_device_oidc (ss : SState) (sig : Nat) (d dn : DevRec) (oidc : List (Nat × Req)) (h : GInv ss)
+    (hl : alookup ss.store.device sig = some d) (hid : d.req.id = dn.req.id) (hu : dn.used = d.used) :
+    GInv { ss with store := { ss.store with device := aset ss.store.device sig dn, oidc := oidc } } :=
+  GInv.weaken ss _ h (CodesWeaker.refl _) (RefreshWeaker.refl _)
+    (DevWeaker.set _ _ d dn hl hid (fun hn => by rw [← hu]; exact hn)) (ParWeaker.refl _) rfl (Nat.le_refl _)
 
 theorem calm_clientCredentialsProg (cfg now q) : calm (clientCredentialsProg cfg now q) := by
   apply calm_run
@@ -32,36 +30,6 @@ theorem calm_clientCredentialsProg (cfg now q) : calm (clientCredentialsProg cfg
   apply calmH_bind _ _ (calmH_guard _ _); intro _
   apply calmH_bind _ _ (calmH_expectNat _ _ (by guardless) (fun _ => calm_retErr _)); intro _
   exact calmH_pure _
-
-theorem calm_deviceAuthProg (cfg now q) : calm (deviceAuthProg cfg now q) := by
-  apply calm_run
-  unfold deviceAuthH
-  apply calmH_bind _ _ (calmH_authenticate _ _); intro client
-  apply calmH_bind _ _ (calmH_guard _ _); intro _
-  apply calmH_bind _ _ (calmH_guard _ _); intro _
-  apply calmH_bind _ _ (calmH_guard _ _); intro _
-  apply calmH_bind _ _ (calmH_optErr _); intro _
-  apply calmH_bind _ _ (calmH_expectNat _ _ (by guardless) (fun _ => calm_retErr _)); intro _
-  apply calmH_bind _ _ (calmH_expectNat _ _ (by guardless) (fun _ => calm_retErr _)); intro _
-  exact calmH_pure _
-
-theorem calm_parPushProg (cfg now p) : calm (parPushProg cfg now p) := by
-  apply calm_run
-  unfold parPushH
-  apply calmH_bind _ _ (calmH_authenticate _ _); intro _
-  apply calmH_bind _ _ (calmH_guard _ _); intro _
-  apply calmH_bind _ _ (calmH_expectClient _ _ (by guardless)); intro client
-  apply calmH_bind _ _ (calmH_guard _ _); intro _
-  apply calmH_bind _ _ (calmH_optErr _); intro _
-  apply calmH_bind _ _ (calmH_guard _ _); intro _
-  split
-  · exact calmH_pure _
-  · apply calmH_bind _ _ (calmH_guard _ _); intro _
-    apply calmH_bind _ _ (calmH_guard _ _); intro _
-    apply calmH_bind _ _ (calmH_optErr _); intro _
-    apply calmH_bind _ _ (calmH_expectNat _ _ (by guardless) (fun _ => calm_retErr _)); intro _
-    apply calmH_bind _ _ (calmH_expectNat _ _ (by guardless) (fun _ => calm_retErr _)); intro _
-    exact calmH_pure _
 
 /-- the password grant creates its refresh token under a request id allocated in the same request -/
 theorem password_safe (rc : RunCfg) (hp : Plain rc) (cfg : Config) (now : Time) (q : DirectReq) (rs : RState)
@@ -99,7 +67,7 @@ theorem password_safe (rc : RunCfg) (hp : Plain rc) (cfg : Config) (now : Time) 
     intro _
     -- the guard of createRefresh: the request id is the one just allocated
     rw [h4.1, hss3]
-    refine ⟨?_, ?_, ?_⟩
+    refine ⟨?_, ?_, ?_, ?_, ?_⟩
     · show rs.ss.next < _
       rw [(exec_createAccess_frame _ _).2.2.2, exec_newId_next]; omega
     · intro s r hl _
@@ -110,6 +78,14 @@ theorem password_safe (rc : RunCfg) (hp : Plain rc) (cfg : Config) (now : Time) 
       show c.req.id ≠ rs.ss.next
       rw [(exec_createAccess_frame _ _).2.1, (exec_newId_ss rs.ss).1] at hl
       have := (hinv.codesBelow s c hl).2; omega
+    · intro s d hl _
+      show d.req.id ≠ rs.ss.next
+      rw [(exec_createAccess_frame2 _ _).1, (exec_newId_ss rs.ss).1] at hl
+      have := (hinv.devBelow s d hl).2; omega
+    · intro u p hl
+      show p.req.id ≠ rs.ss.next
+      rw [(exec_createAccess_frame2 _ _).2, (exec_newId_ss rs.ss).1] at hl
+      have := (hinv.parBelow u p hl).2; omega
   | notFound => simp only [Res.errKind]; exact safeH_fail rc _ _ _
   | req _ => simp only [Res.errKind]; exact safeH_fail rc _ _ _
   | inactive _ => simp only [Res.errKind]; exact safeH_fail rc _ _ _
@@ -120,8 +96,8 @@ theorem password_safe (rc : RunCfg) (hp : Plain rc) (cfg : Config) (now : Time) 
   | usedDev _ => simp only [Res.errKind]; exact safeH_fail rc _ _ _
   | fail e => exact absurd hres (step_no_fail rc hnf _ _ e)
 
-/-- every tracked endpoint program is safe -/
-theorem prog_safe (s : MState) (op : Op) (p : Prog Out) (hp : op.prog s = some p) (ht : op.tracked = true) (hinv : GInv s.ss) :
+/-- every endpoint program is safe -/
+theorem prog_safe (s : MState) (op : Op) (p : Prog Out) (hp : op.prog s = some p) (hinv : GInv s.ss) :
     safeK {} p (fun _ _ => True) { ss := s.ss } := by
   cases op with
   | authorize q => cases hp; exact safeH_run _ _ _ (authorize_safe {} plain_default _ _ _ _ _ hinv)
@@ -132,21 +108,21 @@ theorem prog_safe (s : MState) (op : Op) (p : Prog Out) (hp : op.prog s = some p
   | introspectEndpoint q => cases hp; exact safeK_of_calm _ _ _ (calm_introspectEndpointProg _ _ q)
   | clientCredentials q => cases hp; exact safeK_of_calm _ _ _ (calm_clientCredentialsProg _ _ q)
   | password q => cases hp; exact safeH_run _ _ _ (password_safe {} plain_default _ _ _ _ hinv)
-  | deviceAuthorize q => cases hp; exact safeK_of_calm _ _ _ (calm_deviceAuthProg _ _ q)
-  | parPush q => cases hp; exact safeK_of_calm _ _ _ (calm_parPushProg _ _ q)
-  | devicePoll q => cases ht
-  | authorizePar q => cases ht
+  | deviceAuthorize q => cases hp; exact safeH_run _ _ _ (deviceAuth_safe {} plain_default _ _ _ _ hinv)
+  | parPush q => cases hp; exact safeH_run _ _ _ (parPush_safe {} plain_default _ _ _ _ hinv)
+  | devicePoll q => cases hp; exact safeH_run _ _ _ (devicePoll_safe {} plain_default _ _ _ _ hinv)
+  | authorizePar q => cases hp; exact safeH_run _ _ _ (authorizePar_safe {} plain_default _ _ _ _ _ hinv)
   | setCfg _ => cases hp
   | setClient _ => cases hp
   | advance _ => cases hp
   | deviceDecide _ _ _ _ _ => cases hp
 
-/-- **The grant invariant is preserved by every tracked operation.** -/
-theorem step_GInv (s : MState) (op : Op) (ht : op.tracked = true) (h : GInv s.ss) : GInv (step s op).1.ss := by
+/-- **The grant invariant is preserved by every operation.** -/
+theorem step_GInv (s : MState) (op : Op) (h : GInv s.ss) : GInv (step s op).1.ss := by
   cases hp : op.prog s with
   | some p =>
     rw [(step_prog s op p hp).1]
-    exact (safeK_sound {} plain_default p _ _ h (prog_safe s op p hp ht h)).1
+    exact (safeK_sound {} plain_default p _ _ h (prog_safe s op p hp h)).1
   | none =>
     cases op with
     | setCfg c => exact h
@@ -156,14 +132,16 @@ theorem step_GInv (s : MState) (op : Op) (ht : op.tracked = true) (h : GInv s.ss
       simp only [step]
       cases hl : alookup s.ss.store.device sig with
       | none => exact h
-      | some d => exact GInv_device_oidc _ _ _ h
+      | some d =>
+        apply GInv_device_oidc _ sig d _ _ h hl
+        · cases acc <;> rfl
+        · cases acc <;> rfl
     | _ => simp [Op.prog] at hp
 
-theorem after_GInv (ops : List Op) (s : MState) (ht : ∀ op ∈ ops, op.tracked = true) (h : GInv s.ss) : GInv (after s ops).ss := by
+theorem after_GInv (ops : List Op) (s : MState) (h : GInv s.ss) : GInv (after s ops).ss := by
   induction ops generalizing s with
   | nil => exact h
-  | cons op ops ih =>
-    exact ih _ (fun o ho => ht o (List.mem_cons_of_mem _ ho)) (step_GInv s op (ht op List.mem_cons_self) h)
+  | cons op ops ih => exact ih _ (step_GInv s op h)
 
 /-- the refresh token is known to the server and can never be exchanged (any more) -/
 def RTDead (ss : SState) (sig : Nat) : Prop :=
